@@ -178,13 +178,15 @@ def lean_import_closure(pid):
     return sorted(seen)
 
 
-def prove(pid, translate=True):
+def prove(pid, translate=True, prefixes=()):
     """Returns dict(obligations, discharged, failed=[...], error=str|None, theorems=[...], axioms={...})"""
     t0 = time.time()
     res = dict(obligations=0, discharged=0, failed=[], error=None, theorems=[], axioms={}, translator=None)
     if translate:
         from . import translate as tr
         res["translator"] = tr.regenerate()
+        terr = {k: v for k, v in res["translator"]["errors"].items() if k.startswith(tuple(prefixes))} if prefixes else {}
+        res["translator_errors"] = terr
     names = theorem_names(pid)
     res["theorems"] = names
     res["obligations"] = len(names)
@@ -234,6 +236,9 @@ def prove(pid, translate=True):
     res["discharged"] = len(names) - len(res["failed"])
     if res["failed"]:
         res["error"] = "axiom audit: " + ", ".join(res["failed"])
+    if res.get("translator_errors"):
+        res["error"] = (res["error"] or "") + " translator could not translate: %s" % res["translator_errors"]
+        res["failed"] = res["failed"] + ["(generated definition) Qats.Gen." + k for k in res["translator_errors"]]
     res["wall_s"] = time.time() - t0
     return res
 
